@@ -245,6 +245,19 @@ ADDED10 = {
 }
 for _pid, _t in ADDED10.items():
     CLAIMED[_pid]["text"] += _t
+
+# additions of round 11
+ADDED11 = {
+    "C01": " SubsLastSpec (UNSUBSCRIBE lists with filters the connection does not hold in front of filters it holds) is replayed under this property too.",
+    "C03": " Every reference case is encoded twice, the caller's first destination overwritten in between; in Codec!Mods a setter (DUP) is called after the message has been encoded once and the message encoded again.",
+    "C04": " Concurrent decoders: 8 goroutines decode their own CONNECT / SUBSCRIBE / PUBLISH packets into their own message objects (the death of the process - a Go runtime abort cannot be recovered - is the observation).",
+    "C05": " FwdManySpec (TLC simulation): a subscriber that acknowledges one QoS 1 delivery in three, so that the request queue the broker keeps for it - filled by the publisher's processor - grows after its head has moved: the publisher is not hurt.",
+    "C09": " A will whose PUBLISH has a remaining length of exactly 128 (W6 in WillEofSpec).",
+    "C10": " SessHalfSpec: histories of a persistent session whose connection goes half dead (Broker!BreakOut: the broker's writes fail, the client's packets still arrive), all paths + probe.",
+    "C12": " Client!AppPublishD: a PUBLISH the application sends with the DUP flag set is a request like any other; FwdManySpec under this property too (broker as sender with many requests outstanding).",
+}
+for _pid, _t in ADDED11.items():
+    CLAIMED[_pid]["text"] += _t
 CLAIMED["C13"]["note"] = CLAIMED["C13"]["note"].replace("one caller at a time.", "one caller at a time in the graph walks and random drivers; concurrent callers in the linearizability trials (interleavings are whatever the scheduler produces around a spin barrier).")
 CLAIMED["C13"]["technique"] = "TLA+ specification (AckQueue) model-checked with TLC; state-graph replay + TLC trace validation (AckQueueTrace, AckQueueLinTrace)"
 CLAIMED["C16"]["technique"] = CLAIMED["C16"]["technique"] + "; life-cycle hook events validated by TLC against LifeTrace (Life is refined by Teardown)"
